@@ -96,6 +96,8 @@ structure Inv (exec : Nat → Block → Option Nat) (txsOf : Nat → List Nat) (
   root : N.sdbRoot = N.best.claimed
   /-- (6) no reorganisation marker -/
   marker : N.marker = none
+  /-- (1) the persisted latest pointer is the cached one -/
+  lkey : N.latestKey = N.latest
 
 section
 variable {exec : Nat → Block → Option Nat} {txsOf : Nat → List Nat} {U : Nat → Option Block} {g : Block}
@@ -123,7 +125,8 @@ theorem Inv.frame {N N' : Node} (h : Inv exec txsOf U g N)
     (hpool : ∀ e ∈ N'.orphans, U e.2.id = some e.2 ∧ e.2.parent = e.1)
     (hbyNo : N'.byNo = N.byNo) (hlatest : N'.latest = N.latest) (hbest : N'.best = N.best)
     (htx : N'.txIdx = N.txIdx) (hr : ∀ i n, N.rcpt i n = true → N'.rcpt i n = true)
-    (hroot : N'.sdbRoot = N.sdbRoot) (hmarker : N'.marker = N.marker) : Inv exec txsOf U g N' := by
+    (hroot : N'.sdbRoot = N.sdbRoot) (hmarker : N'.marker = N.marker)
+    (hlk : N'.latestKey = N.latestKey := by rfl) : Inv exec txsOf U g N' := by
   have up : ∀ x, onMain N x → onMain N' x := fun x hx => ⟨by rw [hbyNo]; exact hx.1, hb _ _ hx.2⟩
   have down : ∀ x, onMain N' x → onMain N x := by
     intro x hx
@@ -135,7 +138,7 @@ theorem Inv.frame {N N' : Node} (h : Inv exec txsOf U g N)
     have hcid : c.id = x.id := by have := hc.1; rw [hcn, h1] at this; injection this with this; exact this.symm
     have := hb _ _ hc.2; rw [hcid, hx.2] at this; injection this with this
     rw [this]; exact hc
-  refine ⟨hbU, hpool, ?_, ?_, ?_, ?_, ?_, ?_, ?_, ?_, ?_, ?_, ?_, ?_⟩
+  refine ⟨hbU, hpool, ?_, ?_, ?_, ?_, ?_, ?_, ?_, ?_, ?_, ?_, ?_, ?_, by rw [hlk, hlatest]; exact h.lkey⟩
   · rw [hbest]; exact up _ h.best_main
   · rw [hbest, hlatest]; exact h.best_no
   · intro k hk
@@ -154,6 +157,66 @@ theorem Inv.frame {N N' : Node} (h : Inv exec txsOf U g N)
   · rw [hroot, hbest]; exact h.root
   · rw [hmarker]; exact h.marker
 
+/-- `failNote` only sends a message. -/
+theorem failNote_out (N : Node) (b : Block) :
+    failNote N b = N ∨ failNote N b = { N with out := N.out ++ [Msg.upd N.best.id] } := by
+  unfold failNote; split
+  · right; rfl
+  · left; rfl
+
+theorem failNote_fields (N : Node) (b : Block) :
+    (failNote N b).blocks = N.blocks ∧ (failNote N b).byNo = N.byNo ∧ (failNote N b).latest = N.latest ∧
+    (failNote N b).best = N.best ∧ (failNote N b).txIdx = N.txIdx ∧ (failNote N b).rcpt = N.rcpt ∧
+    (failNote N b).marker = N.marker ∧ (failNote N b).sdbRoot = N.sdbRoot ∧ (failNote N b).orphans = N.orphans ∧
+    (failNote N b).latestKey = N.latestKey ∧ (failNote N b).lib = N.lib ∧ (failNote N b).bad = N.bad ∧
+    (failNote N b).badCap = N.badCap ∧ (failNote N b).orphanCap = N.orphanCap := by
+  rcases failNote_out N b with h | h <;> rw [h] <;> simp
+
+/-- The invariant on a fresh node (genesis block only, any pool capacities). -/
+theorem Inv.init (hg0 : g.no = 0) (hgU : U g.id = some g) (oc bc : Nat) :
+    Inv exec txsOf U g (genesis g oc bc) := by
+  have hbl : ∀ i b, (genesis g oc bc).blocks i = some b → i = g.id ∧ b = g := by
+    intro i b hb
+    simp only [genesis, upd_apply] at hb
+    split at hb
+    · next hi => injection hb with hb; exact ⟨hi, hb.symm⟩
+    · cases hb
+  have hby : ∀ k i, (genesis g oc bc).byNo k = some i → k = 0 := by
+    intro k i hk
+    simp only [genesis, upd_apply] at hk
+    split at hk
+    · assumption
+    · cases hk
+  have hgm : onMain (genesis g oc bc) g := ⟨by simp [genesis, hg0], by simp [genesis]⟩
+  have only : ∀ x, onMain (genesis g oc bc) x → x = g := fun x hx => (hbl _ _ hx.2).2
+  refine ⟨?_, ?_, hgm, hg0, ?_, ?_, ⟨hgm, hg0⟩, ?_, ?_, ?_, ?_, ?_, rfl, rfl, rfl⟩
+  · intro i b hb; obtain ⟨rfl, rfl⟩ := hbl i b hb; exact hgU
+  · intro e he; cases he
+  · intro k hk
+    have : k = 0 := by simpa [genesis] using hk
+    subst this
+    exact ⟨g, hgm, hg0, fun h => absurd h (Nat.lt_irrefl 0)⟩
+  · intro k hk
+    simp only [genesis] at hk ⊢
+    exact upd_other _ _ (by omega)
+  · intro b p hb hp hn; rw [only b hb, only p hp] at hn; omega
+  · intro b b' _ hb' _ hpos; rw [only b' hb', hg0] at hpos; omega
+  · intro b hb hpos; rw [only b hb, hg0] at hpos; omega
+  · intro t bid i ht; simp [genesis] at ht
+  · intro b hb hpos; rw [only b hb, hg0] at hpos; omega
+
+/-- Steps that leave the chain DB, the state root and the orphan pool alone. -/
+theorem Inv.same {N N' : Node} (h : Inv exec txsOf U g N) (e1 : N'.blocks = N.blocks) (e2 : N'.byNo = N.byNo)
+    (e3 : N'.latest = N.latest) (e4 : N'.best = N.best) (e5 : N'.txIdx = N.txIdx) (e6 : N'.rcpt = N.rcpt)
+    (e7 : N'.marker = N.marker) (e8 : N'.sdbRoot = N.sdbRoot) (e9 : N'.orphans = N.orphans)
+    (e10 : N'.latestKey = N.latestKey := by rfl) : Inv exec txsOf U g N' :=
+  Inv.frame h (fun i b hb => by rw [e1]; exact hb) (fun i b hb => by rw [e1] at hb; exact h.inU _ _ hb)
+    (by rw [e9]; exact h.poolU) e2 e3 e4 e5 (fun i n hr => by rw [e6]; exact hr) e8 e7 e10
+
+theorem Inv.failNote {N : Node} (h : Inv exec txsOf U g N) (b : Block) : Inv exec txsOf U g (Aergo.Chain.failNote N b) := by
+  obtain ⟨a1, a2, a3, a4, a5, a6, a7, a8, a9, a10, _⟩ := failNote_fields N b
+  exact Inv.same h a1 a2 a3 a4 a5 a6 a7 a8 a9 a10
+
 /-- Connecting an executed child of the best block (`chainProcessor.execute`: `executeBlock` + `connectToChain`). -/
 theorem Inv.connect (hE : ExecLaw exec txsOf) {N N' : Node} (h : Inv exec txsOf U g N) {b : Block}
     (hbU : U b.id = some b) (hpar : N.byNo N.latest = some b.parent) (hno : b.no = N.latest + 1)
@@ -161,7 +224,8 @@ theorem Inv.connect (hE : ExecLaw exec txsOf) {N N' : Node} (h : Inv exec txsOf 
     (e_blocks : N'.blocks = upd N.blocks b.id (some b)) (e_byNo : N'.byNo = upd N.byNo b.no (some b.id))
     (e_latest : N'.latest = b.no) (e_best : N'.best = b) (e_tx : N'.txIdx = addTxs N.txIdx b)
     (r1 : ∀ i n, N.rcpt i n = true → N'.rcpt i n = true) (r2 : b.txs ≠ [] → N'.rcpt b.id b.no = true)
-    (e_root : N'.sdbRoot = b.claimed) (e_marker : N'.marker = N.marker) (e_orph : N'.orphans = N.orphans) :
+    (e_root : N'.sdbRoot = b.claimed) (e_marker : N'.marker = N.marker) (e_orph : N'.orphans = N.orphans)
+    (e_lk : N'.latestKey = b.no := by rfl) :
     Inv exec txsOf U g N' := by
   have mono : ∀ i c, N.blocks i = some c → N'.blocks i = some c := by
     intro i c hc
@@ -196,7 +260,7 @@ theorem Inv.connect (hE : ExecLaw exec txsOf) {N N' : Node} (h : Inv exec txsOf 
   have hbest : N.byNo N.best.no = some N.best.id := h.best_main.1
   have hroot : N.sdbRoot = N.best.claimed := h.root
   have oldNo : ∀ x, onMain N x → x.no < b.no := fun x hx => by have := onMain_no_le h hx; omega
-  refine ⟨?_, ?_, ?_, ?_, ?_, ?_, ?_, ?_, ?_, ?_, ?_, ?_, ?_, ?_⟩
+  refine ⟨?_, ?_, ?_, ?_, ?_, ?_, ?_, ?_, ?_, ?_, ?_, ?_, ?_, ?_, by rw [e_lk, e_latest]⟩
   · intro i c hc
     rw [e_blocks, upd_apply] at hc
     split at hc
@@ -270,7 +334,7 @@ theorem executeBlock_some {N N1 : Node} {b : Block} (he : executeBlock exec N b 
     exec N.sdbRoot b = some b.claimed ∧ b.consOk = true ∧
     N1 = { N with sdbRoot := b.claimed,
                   rcpt := if b.txs.isEmpty then N.rcpt else fun i n => if i = b.id ∧ n = b.no then true else N.rcpt i n,
-                  out := N.out ++ [Msg.del b.id] } := by
+                  out := N.out ++ [Msg.del b.id, Msg.upd b.id] } := by
   unfold executeBlock at he
   split at he
   · cases he
@@ -342,7 +406,7 @@ theorem Inv.runLoop (hE : ExecLaw exec txsOf) (main : Bool) (fuel : Nat) :
     intro N blk last h hbU hm
     simp only [Aergo.Chain.runLoop]
     split
-    · exact h
+    · exact Inv.failNote h blk
     · next N1 hap =>
       have h1 : Inv exec txsOf U g N1 := by
         unfold Aergo.Chain.apply at hap
@@ -511,13 +575,30 @@ theorem rollforward_frame : ∀ (l : List Block) (N N2 : Node) (ok : Bool), roll
     intro N N2 ok hr
     simp only [rollforward] at hr
     split at hr
-    · injection hr with _ h2; subst h2; simp
+    · injection hr with _ h2; subst h2
+      obtain ⟨a1, a2, a3, a4, a5, a6, a7, _, a9, _, a11, _⟩ := failNote_fields N x
+      exact ⟨a1, a2, a3, a4, a5, a7, a9, a11, fun i n hin => by rw [a6]; exact hin⟩
     · next N1 h1 =>
       obtain ⟨_, _, hN1⟩ := executeBlock_some h1
       have hm := executeBlock_rcpt_mono h1
       obtain ⟨a, b, c, d, e, f, g', l', r⟩ := ih N1 N2 ok hr
       subst hN1
       exact ⟨a, b, c, d, e, f, g', l', fun i n hin => r i n (hm i n hin)⟩
+
+theorem rollforward_lkey : ∀ (l : List Block) (N N2 : Node) (ok : Bool), rollforward exec N l = (ok, N2) →
+    N2.latestKey = N.latestKey := by
+  intro l
+  induction l with
+  | nil => intro N N2 ok hr; simp only [rollforward] at hr; injection hr with _ h2; subst h2; rfl
+  | cons x l ih =>
+    intro N N2 ok hr
+    simp only [rollforward] at hr
+    split at hr
+    · injection hr with _ h2; subst h2
+      exact (failNote_fields N x).2.2.2.2.2.2.2.2.2.1
+    · next N1 h1 =>
+      obtain ⟨_, _, hN1⟩ := executeBlock_some h1
+      rw [ih N1 N2 ok hr, hN1]
 
 theorem rollforward_ok : ∀ (l : List Block) (N N2 : Node) (p : Block), N.sdbRoot = p.claimed →
     rollforward exec N l = (true, N2) →
@@ -754,7 +835,8 @@ theorem Inv.swap (hE : ExecLaw exec txsOf) {N N3 : Node} (h : Inv exec txsOf U g
     (e_rcpt : N3.rcpt = gt.oldB.foldl (fun r b => fun i n => if i = b.id ∧ n = b.no then false else r i n) R2)
     (hR2 : ∀ i n, N.rcpt i n = true → R2 i n = true)
     (hR2new : ∀ x ∈ gt.newB.reverse, x.txs ≠ [] → R2 x.id x.no = true)
-    (e_root : N3.sdbRoot = top.claimed) (e_marker : N3.marker = none) (e_orph : N3.orphans = N.orphans) :
+    (e_root : N3.sdbRoot = top.claimed) (e_marker : N3.marker = none) (e_orph : N3.orphans = N.orphans)
+    (e_lk : N3.latestKey = top.no := by rfl) :
     Inv exec txsOf U g N3 := by
   -- notation
   have hSm := gs.start_main
@@ -832,7 +914,7 @@ theorem Inv.swap (hE : ExecLaw exec txsOf) {N N3 : Node} (h : Inv exec txsOf U g
     have hexq := h.executed c q hom hq (by omega)
     have : t ∈ txsOf q.claimed := h.ghost q b hq hb (by omega) hpos t ht
     exact hE.fresh _ _ _ hexq t hto this
-  refine ⟨?_, ?_, ?_, ?_, ?_, ?_, ?_, ?_, ?_, ?_, ?_, ?_, ?_, ?_⟩
+  refine ⟨?_, ?_, ?_, ?_, ?_, ?_, ?_, ?_, ?_, ?_, ?_, ?_, ?_, ?_, by rw [e_lk, e_latest]⟩
   · rw [e_blocks]; exact h.inU
   · rw [e_orph]; exact h.poolU
   · rw [e_best]; exact newMain top htopmem
@@ -978,6 +1060,7 @@ theorem Inv.reorg (hE : ExecLaw exec txsOf) (hU : UKeyed U) {N : Node} (h : Inv 
         exact Inv.frame h (by intro i b hb; show N2.blocks i = some b; rw [f1]; exact hb)
           (by intro i b hb; have hb' : N2.blocks i = some b := hb; rw [f1] at hb'; exact h.inU _ _ hb')
           (by show ∀ e ∈ N2.orphans, _; rw [f7]; exact h.poolU) f2 f3 f4 f5 f9 h.root.symm f6
+          (by have := rollforward_lkey _ _ _ _ hrf; exact this)
       · next N2 hrf =>
         obtain ⟨f1, f2, f3, f4, f5, f6, f7, f8, f9⟩ := rollforward_frame _ _ _ _ hrf
         obtain ⟨hea, hroot2, hrc2⟩ := rollforward_ok _ _ _ gt.brStart rfl hrf
@@ -996,13 +1079,6 @@ theorem Inv.reorg (hE : ExecLaw exec txsOf) (hU : UKeyed U) {N : Node} (h : Inv 
         intro t
         rw [mem_sortDedup, List.mem_filter]
         simp only [Bool.not_eq_true', List.any_eq_false, List.contains_eq_mem, decide_eq_true_eq, not_exists, not_and]
-
-/-- Steps that leave the chain DB, the state root and the orphan pool alone. -/
-theorem Inv.same {N N' : Node} (h : Inv exec txsOf U g N) (e1 : N'.blocks = N.blocks) (e2 : N'.byNo = N.byNo)
-    (e3 : N'.latest = N.latest) (e4 : N'.best = N.best) (e5 : N'.txIdx = N.txIdx) (e6 : N'.rcpt = N.rcpt)
-    (e7 : N'.marker = N.marker) (e8 : N'.sdbRoot = N.sdbRoot) (e9 : N'.orphans = N.orphans) : Inv exec txsOf U g N' :=
-  Inv.frame h (fun i b hb => by rw [e1]; exact hb) (fun i b hb => by rw [e1] at hb; exact h.inU _ _ hb)
-    (by rw [e9]; exact h.poolU) e2 e3 e4 e5 (fun i n hr => by rw [e6]; exact hr) e8 e7
 
 theorem Inv.cacheBad {N : Node} (h : Inv exec txsOf U g N) (b : Block) : Inv exec txsOf U g (Aergo.Chain.cacheBad N b) :=
   Inv.same h rfl rfl rfl rfl rfl rfl rfl rfl rfl
@@ -1073,70 +1149,161 @@ theorem Inv.addBlock (hE : ExecLaw exec txsOf) (hU : UKeyed U) {N : Node} (h : I
   · split
     · exact ht
     · split
-      · -- orphan
-        split
-        · exact ht
-        · next N1 ha => exact Inv.same (Inv.addOrphan ht hbU ha) rfl rfl rfl rfl rfl rfl rfl rfl rfl
-      · next prev hprev =>
-        split
+      · exact ht
+      · split
         · exact Inv.cacheBad ht b
-        · next hno =>
-          have hno' : prev.no + 1 = b.no := by simpa using hno
-          split
-          · exact Inv.cacheBad ht b
-          · next main hmain =>
-            have hpre : main = true → M.byNo M.latest = some b.parent ∧ b.no = M.latest + 1 := by
-              intro hm; subst hm
-              unfold isMainChain at hmain
-              split at hmain
-              · cases hmain
-              · split at hmain
-                · cases hmain
-                · next hh hby =>
-                  injection hmain with hmain
-                  have hpar : b.parent = hh := by simpa using hmain
-                  subst hpar
-                  refine ⟨hby, ?_⟩
-                  have hb1 := ht.best_main.1
-                  rw [ht.best_no, hby] at hb1
-                  have hid : b.parent = M.best.id := by injection hb1
-                  have hb2 := ht.best_main.2
-                  rw [← hid, hprev] at hb2
-                  injection hb2 with hb2; subst hb2
-                  rw [← ht.best_no]; omega
-            have hrl := Inv.runLoop (U := U) (g := g) hE main (M.orphans.length + 1) M b none ht hbU hpre
-            have hlast : main = false → ∀ l, (Aergo.Chain.runLoop exec main (M.orphans.length + 1) M b none).2.2 = some l →
-                (Aergo.Chain.runLoop exec main (M.orphans.length + 1) M b none).2.1.blocks l.id = some l := by
-              intro hm; subst hm
-              exact runLoop_last (exec := exec) (txsOf := txsOf) (U := U) (g := g) (M.orphans.length + 1) M b none ht hbU
-                (fun l hl => by cases hl)
-            generalize Aergo.Chain.runLoop exec main (M.orphans.length + 1) M b none = rl at hrl hlast
-            obtain ⟨ok, N1, last⟩ := rl
-            simp only at hrl
-            cases ok with
-            | false => exact Inv.cacheBad hrl b
-            | true =>
-              simp only
+        · split
+          · -- orphan
+            split
+            · exact ht
+            · next N1 ha => exact Inv.same (Inv.addOrphan ht hbU ha) rfl rfl rfl rfl rfl rfl rfl rfl rfl
+          · next prev hprev =>
+            split
+            · exact Inv.cacheBad ht b
+            · next hno =>
+              have hno' : prev.no + 1 = b.no := by simpa using hno
               split
-              · exact hrl
-              · next hmf =>
-                have hmf' : main = false := by simpa using hmf
-                subst hmf'
-                split
-                · exact hrl
-                · next l =>
-                  have hl := hlast rfl l rfl
+              · exact Inv.cacheBad ht b
+              · next main hmain =>
+                have hpre : main = true → M.byNo M.latest = some b.parent ∧ b.no = M.latest + 1 := by
+                  intro hm; subst hm
+                  unfold isMainChain at hmain
+                  split at hmain
+                  · cases hmain
+                  · split at hmain
+                    · cases hmain
+                    · next hh hby =>
+                      injection hmain with hmain
+                      have hpar : b.parent = hh := by simpa using hmain
+                      subst hpar
+                      refine ⟨hby, ?_⟩
+                      have hb1 := ht.best_main.1
+                      rw [ht.best_no, hby] at hb1
+                      have hid : b.parent = M.best.id := by injection hb1
+                      have hb2 := ht.best_main.2
+                      rw [← hid, hprev] at hb2
+                      injection hb2 with hb2; subst hb2
+                      rw [← ht.best_no]; omega
+                have hrl := Inv.runLoop (U := U) (g := g) hE main (M.orphans.length + 1) M b none ht hbU hpre
+                have hlast : main = false → ∀ l, (Aergo.Chain.runLoop exec main (M.orphans.length + 1) M b none).2.2 = some l →
+                    (Aergo.Chain.runLoop exec main (M.orphans.length + 1) M b none).2.1.blocks l.id = some l := by
+                  intro hm; subst hm
+                  exact runLoop_last (exec := exec) (txsOf := txsOf) (U := U) (g := g) (M.orphans.length + 1) M b none ht hbU
+                    (fun l hl => by cases hl)
+                generalize Aergo.Chain.runLoop exec main (M.orphans.length + 1) M b none = rl at hrl hlast
+                obtain ⟨ok, N1, last⟩ := rl
+                simp only at hrl
+                cases ok with
+                | false => exact Inv.cacheBad hrl b
+                | true =>
+                  simp only
                   split
-                  · next hlt =>
-                    have hr := Inv.reorg hE hU hrl hl hlt
-                    generalize Aergo.Chain.reorg exec N1 l = rr at hr
-                    obtain ⟨res, N2⟩ := rr
-                    simp only at hr
-                    cases res <;> simp only
-                    · exact hr
-                    · exact hr
-                    · exact Inv.cacheBad hr b
                   · exact hrl
+                  · next hmf =>
+                    have hmf' : main = false := by simpa using hmf
+                    subst hmf'
+                    split
+                    · exact hrl
+                    · next l =>
+                      have hl := hlast rfl l rfl
+                      split
+                      · next hlt =>
+                        have hr := Inv.reorg hE hU hrl hl hlt
+                        generalize Aergo.Chain.reorg exec N1 l = rr at hr
+                        obtain ⟨res, N2⟩ := rr
+                        simp only at hr
+                        cases res <;> simp only
+                        · exact hr
+                        · exact hr
+                        · exact Inv.cacheBad hr b
+                      · exact hrl
+
+/-- `isMainChain` answering "yes" for a block numbered right after its stored parent: the parent is the tip. -/
+theorem isMainChain_true {M : Node} (ht : Inv exec txsOf U g M) {b prev : Block} (hprev : M.blocks b.parent = some prev)
+    (hno' : prev.no + 1 = b.no) (hmain : isMainChain M b = some true) :
+    M.byNo M.latest = some b.parent ∧ b.no = M.latest + 1 := by
+  unfold isMainChain at hmain
+  split at hmain
+  · cases hmain
+  · split at hmain
+    · cases hmain
+    · next hh hby =>
+      injection hmain with hmain
+      have hpar : b.parent = hh := by simpa using hmain
+      subst hpar
+      refine ⟨hby, ?_⟩
+      have hb1 := ht.best_main.1
+      rw [ht.best_no, hby] at hb1
+      have hid : b.parent = M.best.id := by injection hb1
+      have hb2 := ht.best_main.2
+      rw [← hid, hprev] at hb2
+      injection hb2 with hb2; subst hb2
+      rw [← ht.best_no]; omega
+
+/-- Connecting a block right after `executeBlock` (without the p2p notice: the own-block path). -/
+theorem Inv.executeConnect (hE : ExecLaw exec txsOf) {N N1 : Node} (h : Inv exec txsOf U g N) {b : Block}
+    (hbU : U b.id = some b) (hpar : N.byNo N.latest = some b.parent) (hno : b.no = N.latest + 1)
+    (h1 : executeBlock exec N b = some N1) : Inv exec txsOf U g (Aergo.Chain.connect N1 b) := by
+  obtain ⟨hex, _, hN1⟩ := executeBlock_some h1
+  have r1 := executeBlock_rcpt_mono h1
+  have r2 := executeBlock_rcpt_self h1
+  refine Inv.connect hE h hbU hpar hno hex ?_ ?_ ?_ ?_ ?_ r1 r2 ?_ ?_ ?_ <;> simp [Aergo.Chain.connect, hN1]
+
+/-- **Every block of the node's own block factory preserves the invariant** (connected, refused as stale, refused by
+the consensus or by the post-validation, duplicate). -/
+theorem Inv.addOwn (hE : ExecLaw exec txsOf) (hU : UKeyed U) {N : Node} (h : Inv exec txsOf U g N) {b : Block}
+    (hbU : U b.id = some b) : Inv exec txsOf U g (Aergo.Chain.addOwn exec N b).2 := by
+  unfold Aergo.Chain.addOwn
+  have h0 : Inv exec txsOf U g { N with out := [] } := Inv.same h rfl rfl rfl rfl rfl rfl rfl rfl rfl
+  have ht := Inv.touchBad h0 b.id
+  generalize Aergo.Chain.touchBad { N with out := [] } b.id = tb at ht
+  obtain ⟨hit, M⟩ := tb
+  simp only at ht ⊢
+  split
+  · exact ht
+  · split
+    · exact ht
+    · split
+      · exact ht
+      · split
+        · exact ht
+        · split
+          · exact Inv.cacheBad ht b
+          · split
+            · exact ht
+            · next prev hprev =>
+              split
+              · exact Inv.cacheBad ht b
+              · next hno =>
+                have hno' : prev.no + 1 = b.no := by simpa using hno
+                split
+                · exact Inv.cacheBad ht b
+                · next main hmain =>
+                  have hN1 : Inv exec txsOf U g { M with out := M.out ++ [Msg.notify b.id] } :=
+                    Inv.same ht rfl rfl rfl rfl rfl rfl rfl rfl rfl
+                  cases main with
+                  | true =>
+                    simp only [if_true]
+                    obtain ⟨hpar, hnum⟩ := isMainChain_true ht hprev hno' hmain
+                    split
+                    · exact Inv.cacheBad (Inv.failNote hN1 b) b
+                    · next N2 h2 => exact Inv.executeConnect hE hN1 hbU hpar hnum h2
+                  | false =>
+                    simp only [Bool.false_eq_true, if_false]
+                    have hs := Inv.storeSide hN1 hbU
+                    have hst : (Aergo.Chain.storeSide { M with out := M.out ++ [Msg.notify b.id] } b).blocks b.id = some b := by
+                      simp [Aergo.Chain.storeSide]
+                    split
+                    · next hlt =>
+                      have hr := Inv.reorg hE hU hs hst hlt
+                      generalize Aergo.Chain.reorg exec (Aergo.Chain.storeSide { M with out := M.out ++ [Msg.notify b.id] } b) b = rr at hr
+                      obtain ⟨res, N3⟩ := rr
+                      simp only at hr
+                      cases res <;> simp only
+                      · exact hr
+                      · exact hr
+                      · exact Inv.cacheBad hr b
+                    · exact hs
 
 /-! ### fork choice (C07) -/
 
@@ -1169,7 +1336,7 @@ theorem runLoop_grew (hE : ExecLaw exec txsOf) (main : Bool) (fuel : Nat) :
     intro N blk last h hbU hm
     simp only [Aergo.Chain.runLoop]
     split
-    · exact Grew.rfl' N
+    · exact Or.inl ⟨(failNote_fields N blk).2.2.2.1, (failNote_fields N blk).2.2.1⟩
     · next N1 hap =>
       have h1 : Inv exec txsOf U g N1 ∧ Grew N N1 ∧ (main = true → N1.byNo N1.latest = some blk.id ∧ N1.latest = blk.no) := by
         unfold Aergo.Chain.apply at hap
@@ -1224,7 +1391,8 @@ theorem rollforward_puts : ∀ (l : List Block) (N N2 : Node) (ok : Bool), rollf
     intro N N2 ok hr
     simp only [rollforward] at hr
     split at hr
-    · injection hr with _ h2; subst h2; rfl
+    · injection hr with _ h2; subst h2
+      rcases failNote_out N x with hf | hf <;> rw [hf] <;> simp [putsOf]
     · next N1 h1 =>
       obtain ⟨_, _, hN1⟩ := executeBlock_some h1
       rw [ih N1 N2 ok hr, hN1]
@@ -1279,7 +1447,8 @@ theorem reorg_done (hU : UKeyed U) {N N' : Node} (h : Inv exec txsOf U g N) {top
         simp only [if_neg hnge] at hr
         injection hr with _ hr; subst hr
         refine ⟨gt, hg, gs, by omega, hea, fun x hx => hcons _ _ _ hrf x (List.mem_reverse.mpr hx), rfl, rfl, hroot2, ?_⟩
-        simp only [putsOf_append, hputs, putsOf_map_put]
+        have hp0 : putsOf [Msg.upd gt.brStart.id] = [] := rfl
+        simp only [putsOf_append, hputs, putsOf_map_put, hp0, List.append_nil]
 
 /-- A reorganisation that is not carried out (no branch root, vetoed below the last irreversible block, an invalid
 block on the new branch) leaves the tip, the height index, the tx index and the state root where they were and
@@ -1300,7 +1469,10 @@ theorem reorg_not_done {N N' : Node} (h : Inv exec txsOf U g N) {top : Block} {r
         obtain ⟨f1, f2, f3, f4, f5, f6, f7, f8, f9⟩ := rollforward_frame _ _ _ _ hrf
         have hputs := rollforward_puts _ _ _ _ hrf
         injection hr with _ hr; subst hr
-        exact ⟨f4, f3, f2, f5, h.root.symm, hputs⟩
+        refine ⟨f4, f3, f2, f5, h.root.symm, ?_⟩
+        have hp0 : putsOf [Msg.upd gt.brStart.id] = [] := rfl
+        have hp1 : putsOf [Msg.upd N.best.id, Msg.del N.best.id] = [] := rfl
+        simp only [putsOf_append, hputs, hp0, hp1, List.append_nil]
       · next N2 hrf =>
         obtain ⟨f1, f2, f3, f4, f5, f6, f7, f8, f9⟩ := rollforward_frame _ _ _ _ hrf
         have hnge : ¬ (N2.latest ≥ top.no) := by rw [f3]; show ¬ (N.latest ≥ top.no); omega
@@ -1319,7 +1491,8 @@ theorem reorg_complete {N : Node} {top : Block} {gt : Gather} (hg : gather N top
   simp only
   have : ¬ (gt.brStart.no < N.lib) := by omega
   rw [if_neg this]
-  obtain ⟨N2, hN2⟩ := rollforward_complete (exec := exec) gt.newB.reverse { N with sdbRoot := gt.brStart.claimed } gt.brStart rfl hea
+  obtain ⟨N2, hN2⟩ := rollforward_complete (exec := exec) gt.newB.reverse
+    { N with sdbRoot := gt.brStart.claimed, out := N.out ++ [Msg.upd gt.brStart.id] } gt.brStart rfl hea
     (fun x hx => hc x (List.mem_reverse.mp hx))
   rw [hN2]
   obtain ⟨_, _, f3, _⟩ := rollforward_frame _ _ _ _ hN2
@@ -1365,68 +1538,132 @@ theorem addBlock_grew (hE : ExecLaw exec txsOf) {N : Node} (h : Inv exec txsOf U
   · split
     · exact hg0
     · split
+      · exact hg0
+      · split
+        · exact cb M (Grew.rfl' M)
+        · split
+          · split
+            · exact hg0
+            · next N1 ha =>
+              refine hg0.trans (Or.inl ?_)
+              unfold Aergo.Chain.addOrphan at ha
+              split at ha
+              · injection ha with ha; subst ha; exact ⟨rfl, rfl⟩
+              · split at ha
+                · split at ha
+                  · cases ha
+                  · injection ha with ha; subst ha; exact ⟨rfl, rfl⟩
+                · injection ha with ha; subst ha; exact ⟨rfl, rfl⟩
+          · next prev hprev =>
+            split
+            · exact cb M (Grew.rfl' M)
+            · next hno =>
+              have hno' : prev.no + 1 = b.no := by simpa using hno
+              split
+              · exact cb M (Grew.rfl' M)
+              · next main hmain =>
+                have hpre : main = true → M.byNo M.latest = some b.parent ∧ b.no = M.latest + 1 := by
+                  intro hm; subst hm
+                  unfold isMainChain at hmain
+                  split at hmain
+                  · cases hmain
+                  · split at hmain
+                    · cases hmain
+                    · next hh hby =>
+                      injection hmain with hmain
+                      have hpar : b.parent = hh := by simpa using hmain
+                      subst hpar
+                      refine ⟨hby, ?_⟩
+                      have hb1 := ht.best_main.1
+                      rw [ht.best_no, hby] at hb1
+                      have hid : b.parent = M.best.id := by injection hb1
+                      have hb2 := ht.best_main.2
+                      rw [← hid, hprev] at hb2
+                      injection hb2 with hb2; subst hb2
+                      rw [← ht.best_no]; omega
+                have hrl := runLoop_grew (U := U) (g := g) hE main (M.orphans.length + 1) M b none ht hbU hpre
+                generalize Aergo.Chain.runLoop exec main (M.orphans.length + 1) M b none = rl at hrl
+                obtain ⟨ok, N1, last⟩ := rl
+                simp only at hrl
+                cases ok with
+                | false => exact cb N1 hrl
+                | true =>
+                  simp only
+                  split
+                  · exact hg0.trans hrl
+                  · split
+                    · exact hg0.trans hrl
+                    · next l =>
+                      split
+                      · have hr := reorg_grew (exec := exec) (N := N1) l
+                        generalize Aergo.Chain.reorg exec N1 l = rr at hr
+                        obtain ⟨res, N2⟩ := rr
+                        simp only at hr
+                        cases res <;> simp only
+                        · exact hg0.trans (hrl.trans hr)
+                        · exact hg0.trans (hrl.trans hr)
+                        · exact cb N2 (hrl.trans hr)
+                      · exact hg0.trans hrl
+
+/-- The same for a block of the node's own block factory. -/
+theorem addOwn_grew (hE : ExecLaw exec txsOf) {N : Node} (h : Inv exec txsOf U g N) {b : Block}
+    (hbU : U b.id = some b) : Grew N (Aergo.Chain.addOwn exec N b).2 := by
+  unfold Aergo.Chain.addOwn
+  have h0 : Inv exec txsOf U g { N with out := [] } := Inv.same h rfl rfl rfl rfl rfl rfl rfl rfl rfl
+  have ht := Inv.touchBad h0 b.id
+  have hg0 : Grew N (Aergo.Chain.touchBad { N with out := [] } b.id).2 := by
+    unfold Aergo.Chain.touchBad
+    split <;> exact Or.inl ⟨rfl, rfl⟩
+  generalize Aergo.Chain.touchBad { N with out := [] } b.id = tb at ht hg0
+  obtain ⟨hit, M⟩ := tb
+  simp only at ht hg0 ⊢
+  have cb : ∀ X : Node, Grew M X → Grew N (Aergo.Chain.cacheBad X b) := fun X hX =>
+    hg0.trans (hX.trans (Or.inl ⟨rfl, rfl⟩))
+  split
+  · exact hg0
+  · split
+    · exact hg0
+    · split
+      · exact hg0
       · split
         · exact hg0
-        · next N1 ha =>
-          refine hg0.trans (Or.inl ?_)
-          unfold Aergo.Chain.addOrphan at ha
-          split at ha
-          · injection ha with ha; subst ha; exact ⟨rfl, rfl⟩
-          · split at ha
-            · split at ha
-              · cases ha
-              · injection ha with ha; subst ha; exact ⟨rfl, rfl⟩
-            · injection ha with ha; subst ha; exact ⟨rfl, rfl⟩
-      · next prev hprev =>
-        split
-        · exact cb M (Grew.rfl' M)
-        · next hno =>
-          have hno' : prev.no + 1 = b.no := by simpa using hno
-          split
+        · split
           · exact cb M (Grew.rfl' M)
-          · next main hmain =>
-            have hpre : main = true → M.byNo M.latest = some b.parent ∧ b.no = M.latest + 1 := by
-              intro hm; subst hm
-              unfold isMainChain at hmain
-              split at hmain
-              · cases hmain
-              · split at hmain
-                · cases hmain
-                · next hh hby =>
-                  injection hmain with hmain
-                  have hpar : b.parent = hh := by simpa using hmain
-                  subst hpar
-                  refine ⟨hby, ?_⟩
-                  have hb1 := ht.best_main.1
-                  rw [ht.best_no, hby] at hb1
-                  have hid : b.parent = M.best.id := by injection hb1
-                  have hb2 := ht.best_main.2
-                  rw [← hid, hprev] at hb2
-                  injection hb2 with hb2; subst hb2
-                  rw [← ht.best_no]; omega
-            have hrl := runLoop_grew (U := U) (g := g) hE main (M.orphans.length + 1) M b none ht hbU hpre
-            generalize Aergo.Chain.runLoop exec main (M.orphans.length + 1) M b none = rl at hrl
-            obtain ⟨ok, N1, last⟩ := rl
-            simp only at hrl
-            cases ok with
-            | false => exact cb N1 hrl
-            | true =>
-              simp only
+          · split
+            · exact hg0
+            · next prev hprev =>
               split
-              · exact hg0.trans hrl
-              · split
-                · exact hg0.trans hrl
-                · next l =>
-                  split
-                  · have hr := reorg_grew (exec := exec) (N := N1) l
-                    generalize Aergo.Chain.reorg exec N1 l = rr at hr
-                    obtain ⟨res, N2⟩ := rr
-                    simp only at hr
-                    cases res <;> simp only
-                    · exact hg0.trans (hrl.trans hr)
-                    · exact hg0.trans (hrl.trans hr)
-                    · exact cb N2 (hrl.trans hr)
-                  · exact hg0.trans hrl
+              · exact cb M (Grew.rfl' M)
+              · next hno =>
+                have hno' : prev.no + 1 = b.no := by simpa using hno
+                split
+                · exact cb M (Grew.rfl' M)
+                · next main hmain =>
+                  cases main with
+                  | true =>
+                    simp only [if_true]
+                    obtain ⟨hpar, hnum⟩ := isMainChain_true ht hprev hno' hmain
+                    split
+                    · refine cb _ (Or.inl ?_)
+                      exact ⟨(failNote_fields _ b).2.2.2.1, (failNote_fields _ b).2.2.1⟩
+                    · next N2 h2 =>
+                      obtain ⟨_, _, hN2⟩ := executeBlock_some h2
+                      refine hg0.trans (Or.inr ?_)
+                      show M.latest < b.no
+                      omega
+                  | false =>
+                    simp only [Bool.false_eq_true, if_false]
+                    have hgs : Grew M (Aergo.Chain.storeSide { M with out := M.out ++ [Msg.notify b.id] } b) := Or.inl ⟨rfl, rfl⟩
+                    split
+                    · have hr := reorg_grew (exec := exec) (N := Aergo.Chain.storeSide { M with out := M.out ++ [Msg.notify b.id] } b) b
+                      generalize Aergo.Chain.reorg exec (Aergo.Chain.storeSide { M with out := M.out ++ [Msg.notify b.id] } b) b = rr at hr
+                      obtain ⟨res, N3⟩ := rr
+                      simp only at hr
+                      cases res <;> simp only
+                      · exact hg0.trans (hgs.trans hr)
+                      · exact hg0.trans (hgs.trans hr)
+                      · exact cb N3 (hgs.trans hr)
+                    · exact hg0.trans hgs
 
 /-! ### `gather` finds every stored branch that leaves the main chain below the tip -/
 
